@@ -33,10 +33,12 @@ impl SymbolTable {
     pub fn in_function(&self) -> (r: bool) ensures r == sym_in_function(*self) { unimplemented!() }
     // PROVED-BY: unit c09_names (wrapper) - the per-context part is not decided
     #[verifier::external_body]
-    pub fn define(&mut self, name: &str) -> (s: Symbol)
-        ensures s == sym_define_symbol(*old(self), name@), *final(self) == sym_after_define(*old(self), name@),
+    pub fn define(&mut self, name: &str) -> (r: Result<Symbol, Error>)
+        ensures r is Ok ==> r->Ok_0 == sym_define_symbol(*old(self), name@) && *final(self) == sym_after_define(*old(self), name@)
+                    && sym_params(*final(self)) == sym_params(*old(self)).push(name@),
+                // a context that is full (O05.sym) refuses the declaration and stays as it was
+                r is Err ==> *final(self) == *old(self),
                 sym_depth(*final(self)) == sym_depth(*old(self)), sym_contexts(*final(self)) == sym_contexts(*old(self)), sym_outer(*final(self)) == sym_outer(*old(self)),
-                sym_params(*final(self)) == sym_params(*old(self)).push(name@)
     { unimplemented!() }
 }
 pub struct Builtin { pub byte: u8 }
